@@ -58,14 +58,79 @@ theorem endOfSharpToken_ok {cs : List Char} {p : Pos} {u : Unit} :
 def isPlain (c : Char) : Bool :=
   !(c = '(' || c = ')' || c = ';' || c = '"' || c = '|' || c = '#')
 
-theorem isDigit_plain {c : Char} (h : isDigit c = true) : isPlain c = true := by
-  simp only [isDigit, Bool.and_eq_true, decide_eq_true_eq] at h
-  simp only [isPlain, Bool.not_eq_true', Bool.or_eq_false_iff, decide_eq_false_iff_not]
-  refine ⟨⟨⟨⟨⟨?_, ?_⟩, ?_⟩, ?_⟩, ?_⟩, ?_⟩ <;> (rintro rfl; revert h; decide)
+/-- the characters that are special for the lexer or the bracket counter -/
+def specials : List Char := ['(', ')', ';', '"', '|', '#', ' ', '\t', '\n', '\r']
 
-theorem isDigit_not_delim {c : Char} (h : isDigit c = true) : isDelimiter c = false := by
-  simp only [isDigit, Bool.and_eq_true, decide_eq_true_eq] at h
-  simp only [isDelimiter, isWs, Bool.or_eq_false_iff, decide_eq_false_iff_not]
-  refine ⟨⟨⟨⟨⟨⟨⟨⟨?_, ?_⟩, ?_⟩, ?_⟩, ?_⟩, ?_⟩, ?_⟩, ?_⟩, ?_⟩ <;> (rintro rfl; revert h; decide)
+theorem isPlain_of_not_mem {c : Char} (h : c ∉ specials) : isPlain c = true := by
+  simp only [specials, List.mem_cons, List.not_mem_nil, or_false, not_or] at h
+  simp [isPlain, h]
+
+theorem isDelimiter_of_not_mem {c : Char} (h : c ∉ specials) : isDelimiter c = false := by
+  simp only [specials, List.mem_cons, List.not_mem_nil, or_false, not_or] at h
+  simp [isDelimiter, isWs, h]
+
+/-- a character class that contains no special character -/
+theorem not_mem_specials_of_class (P : Char → Bool) (hP : specials.all (fun c => !P c) = true)
+    {c : Char} (h : P c = true) : c ∉ specials := by
+  intro hc
+  have := List.all_eq_true.mp hP c hc
+  simp [h] at this
+
+theorem isDigit_ns {c : Char} (h : isDigit c = true) : c ∉ specials :=
+  not_mem_specials_of_class isDigit (by decide) h
+theorem isSubsequent_ns {c : Char} (h : isSubsequent c = true) : c ∉ specials :=
+  not_mem_specials_of_class isSubsequent (by decide) h
+theorem isAsciiAlnum_ns {c : Char} (h : isAsciiAlnum c = true) : c ∉ specials :=
+  not_mem_specials_of_class isAsciiAlnum (by decide) h
+
+/-! ## `takeRun` -/
+
+theorem takeRun_spec (f : Char → Bool) (cs : List Char) (p : Pos) (acc : List Char) :
+    takeRun f cs p acc
+      = (acc.reverse ++ cs.takeWhile f, cs.dropWhile f, advs (cs.takeWhile f) p) := by
+  induction cs generalizing p acc with
+  | nil => simp [takeRun]
+  | cons c cs ih =>
+    unfold takeRun
+    split <;> simp [*, List.takeWhile, List.dropWhile]
+
+/-- the text does not start with a character of class `f` -/
+def stopsAt (f : Char → Bool) : List Char → Bool
+  | [] => true
+  | c :: _ => !f c
+
+theorem takeRun_append (f : Char → Bool) (run rest : List Char) (p : Pos) (acc : List Char)
+    (hr : ∀ c ∈ run, f c = true) (hs : stopsAt f rest = true) :
+    takeRun f (run ++ rest) p acc = (acc.reverse ++ run, rest, advs run p) := by
+  induction run generalizing p acc with
+  | nil =>
+    cases rest with
+    | nil => simp [takeRun]
+    | cons c r => simp [stopsAt] at hs; simp [takeRun, hs]
+  | cons c run ih =>
+    have hc : f c = true := hr c (by simp)
+    simp only [List.cons_append, takeRun, hc, if_true]
+    rw [ih _ _ (fun c h => hr c (by simp [h]))]
+    simp
+
+theorem takeRun_ex (f : Char → Bool) (cs : List Char) (p : Pos) :
+    ∃ run rest, cs = run ++ rest ∧ (∀ c ∈ run, f c = true) ∧ stopsAt f rest = true ∧
+      takeRun f cs p [] = (run, rest, advs run p) := by
+  suffices h : ∀ acc, ∃ run rest, cs = run ++ rest ∧ (∀ c ∈ run, f c = true) ∧
+      stopsAt f rest = true ∧ takeRun f cs p acc = (acc.reverse ++ run, rest, advs run p) by
+    simpa using h []
+  induction cs generalizing p with
+  | nil => intro acc; exact ⟨[], [], rfl, by simp, rfl, by simp [takeRun]⟩
+  | cons c cs ih =>
+    intro acc
+    by_cases h : f c = true
+    · obtain ⟨run, rest, h1, h2, h3, h4⟩ := ih (adv c p) (c :: acc)
+      refine ⟨c :: run, rest, by simp [h1], ?_, h3, ?_⟩
+      · intro x hx
+        rcases List.mem_cons.mp hx with rfl | hx
+        · exact h
+        · exact h2 x hx
+      · simp [takeRun, h, h4]
+    · exact ⟨[], c :: cs, rfl, by simp, by simp [stopsAt, h], by simp [takeRun, h]⟩
 
 end Ruschm.Text
